@@ -142,6 +142,14 @@ var c16BlockTxs = map[string][]string{
 	"b3tok": {"coinbase", "token", "plain"},
 	"b3dup": {"coinbase", "plain", "plain"}, // two distinct messages with equal content
 	// 300 transactions (index arithmetic beyond one byte); fixed call sequences only, see runC16
+	// 65536 transactions: the CompactSize transaction count needs its 5-byte form
+	"b65536": func() []string {
+		out := []string{"coinbase"}
+		for k := 1; k < 65536; k++ {
+			out = append(out, fmt.Sprintf("var#%d", k))
+		}
+		return out
+	}(),
 	"b300": func() []string {
 		out := []string{"coinbase"}
 		for k := 1; k < 300; k++ {
@@ -284,7 +292,7 @@ func c16Refs() {
 	c16Once.Do(func() {
 		c16BlockRefs = map[string]*c16Ref{}
 		c16TxRefs = map[string]*c16Ref{}
-		for _, n := range append(append([]string{}, c16BlockNames...), "b300") {
+		for _, n := range append(append([]string{}, c16BlockNames...), "b300", "b65536") {
 			c16BlockRefs[n] = c16BlockRefOf(c16BuildBlock(n))
 		}
 		for _, n := range c16TxNames {
@@ -1463,6 +1471,20 @@ func runC16(c *mc.Ctx) {
 		}
 		c.Space("block: 300-transaction fixture x constructor x fixed call sequences", int64(len(big)))
 		c16ParFor(c, int64(len(big)), func(w *mc.W, i int64) { c16EvalBlock(w, big[i]) })
+		// 65536 transactions: locations, bytes and the two ends, every constructor (no final sweep)
+		var huge []c16BlockCase
+		for _, ct := range c16BlockCtors {
+			huge = append(huge, c16BlockCase{Fixture: "b65536", Ctor: ct, Ops: []string{"TxLoc", "Bytes", "Tx(65535)", "TxHash(0)", "Tx(65536)"}},
+				c16BlockCase{Fixture: "b65536", Ctor: ct, Ops: []string{"Tx(65535)", "TxLoc", "Hash"}})
+		}
+		c.Space("block: 65536-transaction fixture x constructor x fixed call sequences", int64(len(huge)))
+		c16ParFor(c, int64(len(huge)), func(w *mc.W, i int64) {
+			ops := make([]c16Op, len(huge[i].Ops))
+			for k, o := range huge[i].Ops {
+				ops[k] = c16ParseOp(o, false)
+			}
+			c16RunBlock(w, huge[i].Fixture, huge[i].Ctor, ops, false, false)
+		})
 	}
 
 	// ---- transactions
